@@ -1,5 +1,5 @@
 From Coq Require Import String Ascii List Bool ZArith.
-Require Import PyStr PyInt Sexp Xml M_C09 M_C08.
+Require Import PyStr PyInt Sexp Xml M_C09 M_C08 M_C08d.
 Import ListNotations.
 
 Definition e_ostr (o : option str) : sexp := e_opt e_str o.
@@ -81,6 +81,10 @@ Definition run_c08 (cmd : str) (args : list sexp) : option sexp :=
   else if str_eqb cmd (lit "c08_roundtrip") then
     match args with [e; b; v] => obind (d_ext e) (fun e => obind (d_bool b) (fun b => omap (fun v =>
        if encodable v then Lst [e_str (encode b v); e_res e_uav (decode_text e (negb b) (encode b v))] else e_err EOther) (d_uav v))) | _ => None end
+  else if str_eqb cmd (lit "c08_domain") then
+    (* is the value in the domain of theorem C08_roundtrip, and what does the theorem say it is read back as *)
+    match args with [e; b; v] => obind (d_ext e) (fun e => obind (d_bool b) (fun b => omap (fun v =>
+       Lst [e_bool (clean b v && dom08 e v); e_uav (canon v)]) (d_uav v))) | _ => None end
   else if str_eqb cmd (lit "xml_parse") then
     match args with [s] => omap (fun s => e_opt e_nxml (omap (resolve [] []) (xparse s))) (d_str s) | _ => None end
   else None.
